@@ -1231,12 +1231,12 @@ Section O2MAxis.
     destruct (collapse_o2m_inv _ _ _ _ _ _ _ _ _ _ Hc) as (_ & Hn & c' & H1 & ->). cbn [ctab cdiv].
     destruct (o2m_rows_inv _ _ _ _ _ _ _ _ H1) as (Hmd & _ & E). cbv zeta in E. subst c'. cbn [ctab cdiv].
     rewrite ids_orient_back, ids_other_orient_back, ttype_orient. cbn [oids sids ttype].
-    rewrite sids_orient, ttype_orient, omd_orient in *.
+    rewrite omd_orient in Hmd. rewrite !sids_orient.
     split; [apply isort_strict, new_md_keys_NoDup|]. split; [apply new_md_groups|]. split; [reflexivity|].
     split.
     { intros y. rewrite md_view_orient_back_other. rewrite !md_view_entry. cbn [ids mds sids smd].
-      rewrite sids_orient, smd_orient. destruct (pos y (ids (other a) t)); [apply entry_view_ctor|reflexivity]. }
-    split; [reflexivity|]. split; [reflexivity|]. split; [|split; [exact Hmd|exact Hn]].
+      rewrite <- sids_orient, <- smd_orient. destruct (pos y (sids (orient a t))); [apply entry_view_ctor|reflexivity]. }
+    split; [rewrite ?ttype_orient; cbn [ttype]; rewrite ?ttype_orient; reflexivity|]. split; [reflexivity|]. split; [|split; [exact Hmd|exact Hn]].
     unfold K, o2m_k. destruct divide; [apply lcm_counts_pos|lia].
   Qed.
 
